@@ -95,7 +95,12 @@ extern "C" void harness_c17_find_include() {
   in->_file = CPPFile(Filename("inc/f.h"), Filename("inc/f.h"), CPPFile::S_alternate);
   pp->_infile = in;
 
+#ifdef CWD_EXISTS
+  // the file exists in the working directory: only the angle-bracket form is meaningful here (quotes find it there)
+  for (int angle = 1; angle < 2; angle++)
+#else
   for (int angle = 0; angle < 2; angle++)
+#endif
     for (int firstpos = 0; firstpos <= NCAND; firstpos++)
       run_config(pp, kinds, angle != 0, firstpos);
   WITNESS();
